@@ -53,6 +53,26 @@ using namespace vf;
 #define VF_CAP_MASK 7   // bit 0: capacity 16, bit 1: 24, bit 2: 64
 #endif
 
+// ------------------------------------------------------------------ message building, out of line (keeps the generated code small)
+struct Piece
+{
+	const char * c; const std::string * s; long long n;
+	Piece(const char * v) : c(v), s(nullptr), n(0) {}
+	Piece(const std::string & v) : c(nullptr), s(&v), n(0) {}
+	Piece(int v) : c(nullptr), s(nullptr), n(v) {}
+	Piece(long v) : c(nullptr), s(nullptr), n(v) {}
+	Piece(long long v) : c(nullptr), s(nullptr), n(v) {}
+	Piece(unsigned long v) : c(nullptr), s(nullptr), n((long long)v) {}
+	Piece(bool v) : c(nullptr), s(nullptr), n(v ? 1 : 0) {}
+};
+static __attribute__((noinline)) std::string joinPieces(const Piece * p, size_t n)
+{
+	std::string o;
+	for(size_t i = 0; i < n; ++i) { if(p[i].c) o += p[i].c; else if(p[i].s) o += *p[i].s; else o += num(p[i].n); }
+	return o;
+}
+template <typename ...A> static std::string S(const A & ...a) { const Piece p[] = { Piece(a)... }; return joinPieces(p, sizeof...(A)); }
+
 // ------------------------------------------------------------------ Blob: tracked by address
 struct BlobRec { int id; int n; bool movedFrom; };
 typedef std::unordered_map<const void *, BlobRec> BlobMap;
@@ -184,10 +204,22 @@ static const char * kClassName[] = { "blob", "int", "string", "unique_ptr", "sha
 
 template <typename T> struct Tr;
 
+static std::string typeName(int cls, int size)
+{
+	switch(cls) {
+	case TC_BLOB: return "Blob<" + num(size) + ">";
+	case TC_INT: return "int";
+	case TC_STRING: return "std::string";
+	case TC_UPTR: return "unique_ptr<Blob<24>>";
+	case TC_SPTR: return "shared_ptr<Blob<24>>";
+	case TC_UBOX: return "UBox<" + num(size) + ">";
+	default: return "SBox<" + num(size) + ">";
+	}
+}
+
 template <int N> struct Tr<Blob<N> >
 {
 	static const int cls = TC_BLOB; static const bool copyable = true;
-	static std::string name() { return "Blob<" + num(N) + ">"; }
 	static Blob<N> make(int id) { return Blob<N>(id); }
 	static long long fp(const Blob<N> & v) { return v.observe(); }
 	static int srcState(const Blob<N> & v) { return blobState(&v); }
@@ -196,7 +228,6 @@ template <int N> struct Tr<Blob<N> >
 template <> struct Tr<int>
 {
 	static const int cls = TC_INT; static const bool copyable = true;
-	static std::string name() { return "int"; }
 	static int make(int id) { return id; }
 	static long long fp(const int & v) { return v; }
 	static int srcState(const int &) { return -1; }
@@ -205,7 +236,6 @@ template <> struct Tr<int>
 template <> struct Tr<std::string>
 {
 	static const int cls = TC_STRING; static const bool copyable = true;
-	static std::string name() { return "std::string"; }
 	static std::string make(int id) { return "s" + num(id) + ":" + std::string((size_t)(id % 41), (char)('a' + id % 26)); } // 3..47 characters: short and long
 	static long long fp(const std::string & v) {
 		if(v.size() < 3 || v[0] != 's') return -2000000;
@@ -218,7 +248,6 @@ template <> struct Tr<std::string>
 template <> struct Tr<UPtr>
 {
 	static const int cls = TC_UPTR; static const bool copyable = false;
-	static std::string name() { return "unique_ptr<Blob<24>>"; }
 	static UPtr make(int id) { return UPtr(new Pointee(id)); }
 	static long long fp(const UPtr & v) { return v ? v->observe() : -7; }
 	static int srcState(const UPtr & v) { return v ? 0 : 1; }
@@ -227,7 +256,6 @@ template <> struct Tr<UPtr>
 template <> struct Tr<SPtr>
 {
 	static const int cls = TC_SPTR; static const bool copyable = true;
-	static std::string name() { return "shared_ptr<Blob<24>>"; }
 	static SPtr make(int id) { return std::make_shared<Pointee>(id); }
 	static long long fp(const SPtr & v) { return v ? v->observe() : -7; }
 	static int srcState(const SPtr & v) { return v ? 0 : 1; }
@@ -244,7 +272,6 @@ template <typename B> static long long boxFp(const B & v, int padLen)
 template <int S> struct Tr<UBox<S> >
 {
 	static const int cls = TC_UBOX; static const bool copyable = false;
-	static std::string name() { return "UBox<" + num(S) + ">"; }
 	static UBox<S> make(int id) { return UBox<S>(id); }
 	static long long fp(const UBox<S> & v) { return boxFp(v, S - 8); }
 	static int srcState(const UBox<S> & v) { return v.p ? 0 : 1; }
@@ -253,7 +280,6 @@ template <int S> struct Tr<UBox<S> >
 template <int S> struct Tr<SBox<S> >
 {
 	static const int cls = TC_SBOX; static const bool copyable = true;
-	static std::string name() { return "SBox<" + num(S) + ">"; }
 	static SBox<S> make(int id) { return SBox<S>(id); }
 	static long long fp(const SBox<S> & v) { return boxFp(v, S - 16); }
 	static int srcState(const SBox<S> & v) { return v.p ? 0 : 1; }
@@ -263,12 +289,13 @@ template <int S> struct Tr<SBox<S> >
 // ------------------------------------------------------------------ type lists
 template <typename ...Ts> struct TL { static const int size = (int)sizeof...(Ts); };
 
-template <std::size_t ...I>
+// move-only and shared boxes exactly at the capacity and just beyond it (8 more bytes: they are 8-aligned)
+template <int Cap, std::size_t ...I>
 static TL<Blob<(int)I + 1>..., int, std::string, UPtr, SPtr,
-	UBox<16>, UBox<24>, UBox<32>, UBox<64>, UBox<72>, UBox<96>,
-	SBox<24>, SBox<32>, SBox<64>, SBox<72>, SBox<96> > makeTypeList(std::index_sequence<I...>);
+	UBox<(Cap < 16 ? 16 : Cap)>, UBox<(Cap < 16 ? 16 : Cap) + 8>,
+	SBox<(Cap < 24 ? 24 : Cap)>, SBox<(Cap < 24 ? 24 : Cap) + 8> > makeTypeList(std::index_sequence<I...>);
 
-template <int Cap> struct TypesOf { typedef decltype(makeTypeList(std::make_index_sequence<Cap + 24>())) Type; };
+template <int Cap> struct TypesOf { typedef decltype(makeTypeList<Cap>(std::make_index_sequence<Cap + 24>())) Type; };
 
 // ------------------------------------------------------------------ construction forms
 enum Form { F_LVALUE = 0, F_CONST_LVALUE, F_RVALUE, F_CONST_RVALUE, F_TEMP, F_FROM_HELD, F_FORMS };
@@ -292,6 +319,11 @@ struct Step { char kind; int ev; int idx; bool ret; }; // kind: 'P' predicate, '
 
 template <int Cap> struct World;
 
+// what the typed code reads, handed to the untyped checks (keeps the per-type code small)
+struct SrcInfo { long long fp; int state; long shares; };
+struct ReadBack { const void * a[7]; long long f1, f2; long shares; int align; };
+enum SinkKind { SK_CONSTRUCT = 0, SK_ENQUEUE, SK_DISPATCH };
+
 template <int Cap>
 struct OpsRow
 {
@@ -299,10 +331,8 @@ struct OpsRow
 	std::string name;
 	int size, align, cls;
 	bool copyable;
-	void (*construct)(World<Cap> &, int form, int id, const AD * from);
-	void (*enqueue)(World<Cap> &, int form, int id, const AD * from);
-	void (*dispatch)(World<Cap> &, int form, int id, const AD * from);
-	void (*verify)(World<Cap> &, const AD &, int id, const char * where);
+	void (*feed)(World<Cap> &, int sink, int form, int id, const AD * from);
+	void (*read)(const AD &, ReadBack &);
 	void (*appendTyped)(World<Cap> &, int ev);
 };
 
@@ -336,10 +366,11 @@ struct World
 	const char * curOp;
 	int curType;
 	AD * lastBuilt;
+	long exclCopied, exclMoved;
 	bool sawInline, sawHeap, sawMove;
 
 	World(Rng & r, const std::vector<OpsRow<Cap> > & o) : rng(r), ops(o), listeners((size_t)NT), scriptPos(0), inScript(false),
-		nextId(1), nestedBudget(0), dead(false), curOp(""), curType(0), lastBuilt(nullptr), sawInline(false), sawHeap(false), sawMove(false) {}
+		nextId(1), nestedBudget(0), dead(false), curOp(""), curType(0), lastBuilt(nullptr), exclCopied(0), exclMoved(0), sawInline(false), sawHeap(false), sawMove(false) {}
 
 	~World() {
 		// nothing of the real objects may outlive the world
@@ -387,41 +418,71 @@ struct World
 		std::vector<char> r;
 		isTypeAll(ad, r, Types());
 		count("istype.queries", (uint64_t)NT);
-		if(! r[(size_t)t]) { fail(std::string("isType:false-for-stored-type:") + sizeClass(t), std::string(where) + ": isType<" + ops[t].name + "> is false for an AnyData holding a " + ops[t].name); return; }
+		if(! r[(size_t)t]) { fail(S("isType:false-for-stored-type:", sizeClass(t)), S(where, ": isType<", ops[t].name, "> is false for an AnyData holding a ", ops[t].name)); return; }
 		for(int k = 0; k < NT; ++k) {
 			if(k != t && r[(size_t)k]) {
-				fail(std::string("isType:true-for-other-type:") + sizeClass(t), std::string(where) + ": isType<" + ops[k].name + "> is true for an AnyData holding a " + ops[t].name);
+				fail(S("isType:true-for-other-type:", sizeClass(t)), S(where, ": isType<", ops[k].name, "> is true for an AnyData holding a ", ops[t].name));
 				return;
 			}
 		}
 	}
 	// full read-back of an AnyData that must hold (t, id)
 	void checkHeld(const AD & ad, int t, int id, const char * where) {
-		ops[t].verify(*this, ad, id, where);
+		verify(t, ad, id, where);
 		if(! dead) checkIsType(ad, t, where);
+	}
+	// read back through every accessor (twice) and compare
+	void verify(int t, const AD & ad, int id, const char * where) {
+		if(dead) return;
+		count("reads");
+		ReadBack rb;
+		ops[t].read(ad, rb);
+		const std::string cls = sizeClass(t);
+		const std::string & name = ops[t].name;
+		if(rb.a[0] == nullptr) { fail(S(where, ":address-null:", cls), S(name, " id=", id, ": getAddress() is null")); return; }
+		for(int k = 1; k < 7; ++k) {
+			if(rb.a[k] != rb.a[0]) {
+				static const char * acc[] = { "getAddress()", "get<T>()", "conversion to const T &", "conversion to T &", "conversion to const T *", "conversion to T *", "second getAddress()" };
+				fail(S(where, ":address-differs-between-accessors:", cls), S(name, " id=", id, ": ", acc[k], " and getAddress() do not give the same address"));
+				return;
+			}
+		}
+		if(((uintptr_t)rb.a[0] % (uintptr_t)rb.align) != 0) { fail(S(where, ":address-misaligned:", cls), S(name, " id=", id, " is held at an address not aligned to ", rb.align)); return; }
+		if(rb.f1 != id) { fail(S(where, ":value:", cls), S(name, ": read back ", rb.f1, ", stored id=", id)); return; }
+		if(rb.f2 != id) { fail(S(where, ":value-second-read:", cls), S(name, ": second read gives ", rb.f2, ", stored id=", id)); return; }
+		if(rb.shares >= 0 && ownersKnown(id)) {
+			count("use_count_checks");
+			const long want = entities(id);
+			if(rb.shares != want) { fail(S(where, ":use-count:", cls), S(name, " id=", id, ": use_count ", rb.shares, ", the model counts ", want, " owners")); return; }
+		}
 	}
 
 	// ---------- after the library consumed a source object (called by TOps::feed)
-	void afterFeed(int form, const LedgerSnap & s0, int t, int id, long long srcFp, int srcState, long srcShares) {
-		LedgerSnap s1; s1.take();
+	// ledger counters net of what nested harness operations (enqueue from inside a listener) did themselves
+	LedgerSnap netSnap() const { LedgerSnap s; s.take(); s.copied -= exclCopied; s.moved -= exclMoved; return s; }
+	LedgerSnap beforeUse() const { return netSnap(); }
+	void afterFeed(int form, int id, const SrcInfo & si, const LedgerSnap & s0) {
+		const int t = curType;
+		const long long srcFp = si.fp; const int srcState = si.state; const long srcShares = si.shares;
+		const LedgerSnap s1 = netSnap();
 		const long copies = s1.copied - s0.copied, moves = s1.moved - s0.moved;
 		count("ledger.object_copies", (uint64_t)copies);
 		count("ledger.object_moves", (uint64_t)moves);
 		const std::string op = std::string(curOp) + ":" + kFormName[form];
 		const int cls = ops[t].cls;
 		if(formCopies(form)) {
-			if(srcFp != id) { fail(op + ":source-changed:" + kClassName[cls], "the source " + ops[t].name + " id=" + num(id) + " reads " + num(srcFp) + " after being passed as " + kFormName[form]); return; }
-			if(cls == TC_BLOB && copies < 1) { fail(op + ":no-copy-in-ledger", ops[t].name + " id=" + num(id) + " passed as " + kFormName[form] + ": ledger shows " + num(copies) + " copies, " + num(moves) + " moves"); return; }
+			if(srcFp != id) { fail(S(op, ":source-changed:", kClassName[cls]), S("the source ", ops[t].name, " id=", id, " reads ", srcFp, " after being passed as ", kFormName[form])); return; }
+			if(cls == TC_BLOB && copies < 1) { fail(S(op, ":no-copy-in-ledger"), S(ops[t].name, " id=", id, " passed as ", kFormName[form], ": ledger shows ", copies, " copies, ", moves, " moves")); return; }
 			if(srcShares >= 0 && ownersKnown(id)) {
 				count("use_count_checks");
 				const long want = (long)entities(id) + (form == F_FROM_HELD ? 0 : 1);
-				if(srcShares != want) { fail(op + ":use-count", ops[t].name + " id=" + num(id) + ": use_count " + num(srcShares) + " after the copy, the model counts " + num(want) + " owners"); return; }
+				if(srcShares != want) { fail(S(op, ":use-count"), S(ops[t].name, " id=", id, ": use_count ", srcShares, " after the copy, the model counts ", want, " owners")); return; }
 			}
 		}
 		else {
-			if(copies != 0) { fail(op + ":copied-instead-of-moved:" + kClassName[cls], ops[t].name + " id=" + num(id) + " passed as " + kFormName[form] + ": ledger shows " + num(copies) + " copies, " + num(moves) + " moves"); return; }
-			if(cls == TC_BLOB && moves < 1) { fail(op + ":no-move-in-ledger", ops[t].name + " id=" + num(id) + " passed as " + kFormName[form] + ": ledger shows no move"); return; }
-			if(form == F_RVALUE && srcState == 0) { fail(op + ":source-not-moved-from:" + kClassName[cls], "the source " + ops[t].name + " id=" + num(id) + " is still intact after being passed as rvalue"); return; }
+			if(copies != 0) { fail(S(op, ":copied-instead-of-moved:", kClassName[cls]), S(ops[t].name, " id=", id, " passed as ", kFormName[form], ": ledger shows ", copies, " copies, ", moves, " moves")); return; }
+			if(cls == TC_BLOB && moves < 1) { fail(S(op, ":no-move-in-ledger"), S(ops[t].name, " id=", id, " passed as ", kFormName[form], ": ledger shows no move")); return; }
+			if(form == F_RVALUE && srcState == 0) { fail(S(op, ":source-not-moved-from:", kClassName[cls]), S("the source ", ops[t].name, " id=", id, " is still intact after being passed as rvalue")); return; }
 		}
 	}
 
@@ -474,14 +535,14 @@ struct World
 		const int id = form == F_FROM_HELD ? holders[(size_t)fromIdx].id : newId();
 		const AD * from = form == F_FROM_HELD ? holders[(size_t)fromIdx].ad : nullptr;
 		curOp = "construct"; curType = t;
-		log("new h" + num((long long)holders.size()) + " " + ops[t].name + " id=" + num(id) + " form=" + kFormName[form] + (from ? " of h" + num(fromIdx) : ""));
+		log(S("new h", (long long)holders.size(), " ", ops[t].name, " id=", id, " form=", kFormName[form], (from ? S(" of h", fromIdx) : std::string(""))));
 		count((std::string("construct.") + kFormName[form]).c_str());
 		lastBuilt = nullptr;
-		ops[t].construct(*this, form, id, from); // adds the holder before the source is inspected
+		ops[t].feed(*this, SK_CONSTRUCT, form, id, from); // adds the holder before the source is inspected
 		if(dead || ! lastBuilt) return;
 		const Holder & h = holders.back();
 		noteHeld(*h.ad, t);
-		log(std::string("  -> ") + (isInline(*h.ad) ? "inline" : "heap"));
+		log(S("  -> ", (isInline(*h.ad) ? "inline" : "heap")));
 		checkHeld(*h.ad, t, id, "construct");
 	}
 	// called by the Use functor of construct, while the source is still alive
@@ -494,7 +555,7 @@ struct World
 	void doChain(int hi, int len) {
 		Holder & h = holders[(size_t)hi];
 		const int t = h.t, id = h.id;
-		log("chain h" + num(hi) + " " + ops[t].name + " id=" + num(id) + " len=" + num(len));
+		log(S("chain h", hi, " ", ops[t].name, " id=", id, " len=", len));
 		countMax("max_chain", (uint64_t)len);
 		std::vector<AD *> husks;
 		const bool deferred = rng.chance(1, 2);
@@ -504,7 +565,7 @@ struct World
 			if(rng.chance(1, 4)) {
 				// through an automatic object
 				AD onStack(std::move(*h.ad));
-				ops[t].verify(*this, onStack, id, "chain(stack)");
+				verify(t, onStack, id, "chain(stack)");
 				next = new AD(std::move(onStack));
 				count("moves.anydata", 2);
 			}
@@ -517,11 +578,11 @@ struct World
 			h.ad = next;
 			if(dead) break;
 			if(k == len - 1 || rng.chance(1, 3)) checkHeld(*h.ad, t, id, "chain");
-			else ops[t].verify(*this, *h.ad, id, "chain");
+			else verify(t, *h.ad, id, "chain");
 		}
 		LedgerSnap s1; s1.take();
 		if(! dead && s1.copied != s0.copied)
-			fail(std::string("move:copied-instead-of-moved:") + sizeClass(t), "moving an AnyData holding " + ops[t].name + " id=" + num(id) + " " + num(len) + " time(s): ledger shows " + num(s1.copied - s0.copied) + " copies");
+			fail(S("move:copied-instead-of-moved:", sizeClass(t)), S("moving an AnyData holding ", ops[t].name, " id=", id, " ", len, " time(s): ledger shows ", s1.copied - s0.copied, " copies"));
 		count("ledger.object_moves", (uint64_t)(s1.moved - s0.moved));
 		// the moved-from AnyData objects die in random order
 		while(! husks.empty()) {
@@ -529,12 +590,12 @@ struct World
 			delete husks[k];
 			husks.erase(husks.begin() + (long)k);
 		}
-		if(! dead) ops[t].verify(*this, *h.ad, id, "chain(after husks died)");
+		if(! dead) verify(t, *h.ad, id, "chain(after husks died)");
 	}
 
 	void doDrop(int hi) {
 		Holder h = holders[(size_t)hi];
-		log("drop h" + num(hi) + " " + ops[h.t].name + " id=" + num(h.id));
+		log(S("drop h", hi, " ", ops[h.t].name, " id=", h.id));
 		holders.erase(holders.begin() + hi);
 		delete h.ad;
 		count("holders_destroyed");
@@ -553,7 +614,7 @@ struct World
 		std::vector<char> & l = listeners[(size_t)t];
 		if(l.empty()) { GenericL g; g.w = this; g.ev = t; q->appendListener(t, g); l.push_back('G'); }
 		if(l.size() < 3 && rng.chance(1, 3)) {
-			if(rng.chance(2, 3)) { ops[t].appendTyped(*this, t); l.push_back('T'); log("  listener taking const " + ops[t].name + " & appended for event " + num(t)); }
+			if(rng.chance(2, 3)) { ops[t].appendTyped(*this, t); l.push_back('T'); log(S("  listener taking const ", ops[t].name, " & appended for event ", t)); }
 			else { GenericL g; g.w = this; g.ev = t; q->appendListener(t, g); l.push_back('G'); }
 		}
 	}
@@ -567,16 +628,16 @@ struct World
 		inScript = false;
 		if(! dead && scriptPos != script.size()) {
 			const Step & s = script[scriptPos];
-			fail(std::string(op) + ":missed-call", std::string(op) + " returned without the expected " + (s.kind == 'P' ? "predicate" : "listener") + " call for " + ops[scriptEvents[(size_t)s.idx].t].name + " id=" + num(scriptEvents[(size_t)s.idx].id));
+			fail(S(op, ":missed-call"), S(op, " returned without the expected ", (s.kind == 'P' ? "predicate" : "listener"), " call for ", ops[scriptEvents[(size_t)s.idx].t].name, " id=", scriptEvents[(size_t)s.idx].id));
 		}
 	}
 	// next expected call; nullptr after a failure
 	const Step * nextStep(char kind, int ev, const char * what) {
 		if(dead) return nullptr;
-		if(! inScript || scriptPos >= script.size()) { fail(std::string(what) + ":unexpected-call", std::string(what) + " called for event " + num(ev) + " while the model expects no call"); return nullptr; }
+		if(! inScript || scriptPos >= script.size()) { fail(S(what, ":unexpected-call"), S(what, " called for event ", ev, " while the model expects no call")); return nullptr; }
 		const Step & s = script[scriptPos];
 		if(s.kind != kind || (kind != 'P' && s.ev != ev)) {
-			fail(std::string(what) + ":out-of-order-call", std::string(what) + " called for event " + num(ev) + ", the model expects a '" + std::string(1, s.kind) + "' call for event " + num(s.ev));
+			fail(S(what, ":out-of-order-call"), S(what, " called for event ", ev, ", the model expects a '", std::string(1, s.kind), "' call for event ", s.ev));
 			return nullptr;
 		}
 		++scriptPos;
@@ -586,7 +647,7 @@ struct World
 		const Step * s = nextStep('G', ev, "listener");
 		if(! s) return;
 		const Expect e = scriptEvents[(size_t)s->idx];
-		log("  listener(AnyData) event=" + num(ev) + " " + ops[e.t].name + " id=" + num(e.id) + (isInline(ad) ? " inline" : " heap"));
+		log(S("  listener(AnyData) event=", ev, " ", ops[e.t].name, " id=", e.id, (isInline(ad) ? " inline" : " heap")));
 		count("listener.generic_calls");
 		if(isInline(ad)) sawInline = true; else sawHeap = true;
 		checkHeld(ad, e.t, e.id, "listener");
@@ -601,15 +662,15 @@ struct World
 		const Step * s = nextStep('T', ev, "typed-listener");
 		if(! s) return;
 		const Expect e = scriptEvents[(size_t)s->idx];
-		log("  listener(const " + ops[e.t].name + " &) event=" + num(ev) + " sees " + num(fp));
+		log(S("  listener(const ", ops[e.t].name, " &) event=", ev, " sees ", fp));
 		count("listener.typed_calls");
-		if(fp != e.id) fail(std::string("listener:converted-value:") + sizeClass(e.t), "listener taking const " + ops[e.t].name + " & sees " + num(fp) + ", the event holds id=" + num(e.id));
+		if(fp != e.id) fail(S("listener:converted-value:", sizeClass(e.t)), S("listener taking const ", ops[e.t].name, " & sees ", fp, ", the event holds id=", e.id));
 	}
 	bool onPredicate(const AD & ad) {
 		const Step * s = nextStep('P', -1, "predicate");
 		if(! s) return false;
 		const Expect e = scriptEvents[(size_t)s->idx];
-		log("  predicate " + ops[e.t].name + " id=" + num(e.id) + " -> " + num(s->ret));
+		log(S("  predicate ", ops[e.t].name, " id=", e.id, " -> ", s->ret));
 		count("predicate_calls");
 		const bool ret = s->ret;
 		checkHeld(ad, e.t, e.id, "predicate");
@@ -624,10 +685,12 @@ struct World
 		const int id = form == F_FROM_HELD ? fromId : newId();
 		const char * savedOp = curOp; const int savedType = curType;
 		curOp = "enqueue"; curType = t;
-		log(std::string(nested ? "  nested " : "") + "enqueue event=" + num(t) + " " + ops[t].name + " id=" + num(id) + " form=" + kFormName[form]);
+		log(S(nested ? "  nested " : "", "enqueue event=", t, " ", ops[t].name, " id=", id, " form=", kFormName[form]));
 		count("queue.enqueue");
 		count((std::string("enqueue.") + kFormName[form]).c_str());
-		ops[t].enqueue(*this, form, id, from); // pushes the model event before the source is inspected
+		LedgerSnap raw0; raw0.take();
+		ops[t].feed(*this, SK_ENQUEUE, form, id, from); // pushes the model event before the source is inspected
+		if(nested) { LedgerSnap raw1; raw1.take(); exclCopied += raw1.copied - raw0.copied; exclMoved += raw1.moved - raw0.moved; }
 		curOp = savedOp; curType = savedType;
 	}
 	void enqueued(int id) { Expect e; e.t = curType; e.id = id; queued.push_back(e); }
@@ -638,12 +701,12 @@ struct World
 		const int id = form == F_FROM_HELD ? holders[(size_t)fromIdx].id : newId();
 		const AD * from = form == F_FROM_HELD ? holders[(size_t)fromIdx].ad : nullptr;
 		curOp = "dispatch"; curType = t;
-		log("dispatch event=" + num(t) + " " + ops[t].name + " id=" + num(id) + " form=" + kFormName[form]);
+		log(S("dispatch event=", t, " ", ops[t].name, " id=", id, " form=", kFormName[form]));
 		count("queue.dispatch_direct");
 		beginScript();
 		Expect e; e.t = t; e.id = id; scriptEvents.push_back(e);
 		pushListenerSteps(0);
-		ops[t].dispatch(*this, form, id, from);
+		ops[t].feed(*this, SK_DISPATCH, form, id, from);
 		endScript("dispatch");
 		scriptEvents.clear();
 	}
@@ -652,7 +715,7 @@ struct World
 
 	void doProcess() {
 		if(! q) return;
-		log("process (" + num((long long)queued.size()) + " queued)");
+		log(S("process (", (long long)queued.size(), " queued)"));
 		count("queue.process");
 		beginScript();
 		scriptEvents.assign(queued.begin(), queued.end());
@@ -663,11 +726,11 @@ struct World
 		endScript("process");
 		for(size_t i = 0; i < scriptEvents.size(); ++i) released(scriptEvents[i]);
 		scriptEvents.clear();
-		if(! dead && r != expect) fail("process:result", "process returned " + num(r));
+		if(! dead && r != expect) fail("process:result", S("process returned ", r));
 	}
 	void doProcessOne() {
 		if(! q) return;
-		log("processOne (" + num((long long)queued.size()) + " queued)");
+		log(S("processOne (", (long long)queued.size(), " queued)"));
 		count("queue.processOne");
 		beginScript();
 		if(! queued.empty()) { scriptEvents.push_back(queued.front()); queued.pop_front(); pushListenerSteps(0); }
@@ -676,13 +739,13 @@ struct World
 		endScript("processOne");
 		for(size_t i = 0; i < scriptEvents.size(); ++i) released(scriptEvents[i]);
 		scriptEvents.clear();
-		if(! dead && r != expect) fail("processOne:result", "processOne returned " + num(r));
+		if(! dead && r != expect) fail("processOne:result", S("processOne returned ", r));
 	}
 	struct Pred { World * w; bool operator() (const AD & ad) const { return w->onPredicate(ad); } };
 	void doProcessIf(bool until) {
 		if(! q) return;
 		const char * op = until ? "processUntil" : "processIf";
-		log(std::string(op) + " (" + num((long long)queued.size()) + " queued)");
+		log(S(op, " (", (long long)queued.size(), " queued)"));
 		count(until ? "queue.processUntil" : "queue.processIf");
 		beginScript();
 		scriptEvents.assign(queued.begin(), queued.end());
@@ -715,7 +778,7 @@ struct World
 	}
 	void doClear() {
 		if(! q) return;
-		log("clearEvents (" + num((long long)queued.size()) + " queued)");
+		log(S("clearEvents (", (long long)queued.size(), " queued)"));
 		count("queue.clearEvents");
 		count("queue.events_cleared", queued.size());
 		for(size_t i = 0; i < queued.size(); ++i) released(queued[i]);
@@ -724,7 +787,7 @@ struct World
 	}
 	void doDestroyQueue() {
 		if(! q) return;
-		log("queue destroyed (" + num((long long)queued.size()) + " pending)");
+		log(S("queue destroyed (", (long long)queued.size(), " pending)"));
 		count("queue.destroyed");
 		if(! queued.empty()) { count("queue.destroyed_with_pending"); count("queue.events_pending_at_destruction", queued.size()); }
 		queued.clear();
@@ -749,12 +812,12 @@ struct World
 			const int hi = lo + (sl == slack.end() ? 0 : sl->second);
 			total += live;
 			slackTotal += hi - lo;
-			if(live < lo) { fail("lifetime:held-object-destroyed-early", "object id=" + num(id) + ": " + num(live) + " live instance(s), " + num(e) + " AnyData object(s) still hold it"); return; }
-			if(live > hi) { fail("lifetime:held-object-not-destroyed", "object id=" + num(id) + ": " + num(live) + " live instance(s), only " + num(e) + " AnyData object(s) hold it"); return; }
+			if(live < lo) { fail("lifetime:held-object-destroyed-early", S("object id=", id, ": ", live, " live instance(s), ", e, " AnyData object(s) still hold it")); return; }
+			if(live > hi) { fail("lifetime:held-object-not-destroyed", S("object id=", id, ": ", live, " live instance(s), only ", e, " AnyData object(s) hold it")); return; }
 			if(sl != slack.end() && live == lo) count("queue.event_released_when_processed");
 		}
 		if(ledger().liveCount(K_PAYLOAD) > total + 0 || ledger().liveCount(K_PAYLOAD) < total)
-			fail("lifetime:ledger-total", "ledger counts " + num(ledger().liveCount(K_PAYLOAD)) + " live objects, the ids sum to " + num(total));
+			fail("lifetime:ledger-total", S("ledger counts ", ledger().liveCount(K_PAYLOAD), " live objects, the ids sum to ", total));
 		(void)slackTotal;
 	}
 
@@ -775,7 +838,7 @@ struct World
 		else if(c < 46) doChain((int)rng.below((uint32_t)holders.size()), rng.range(1, 20));
 		else if(c < 52) {
 			const int hi = (int)rng.below((uint32_t)holders.size());
-			log("reread h" + num(hi));
+			log(S("reread h", hi));
 			checkHeld(*holders[(size_t)hi].ad, holders[(size_t)hi].t, holders[(size_t)hi].id, "reread");
 		}
 		else if(c < 60) doDrop((int)rng.below((uint32_t)holders.size()));
@@ -849,7 +912,7 @@ struct World
 	}
 };
 
-// ------------------------------------------------------------------ typed operations
+// ------------------------------------------------------------------ typed operations (kept minimal: one set per stored type)
 template <int Cap, typename T>
 struct TOps
 {
@@ -857,93 +920,82 @@ struct TOps
 	typedef typename W::AD AD;
 	typedef Tr<T> R;
 
-	// hands the source object to `use` in the requested value category, then inspects source and ledger
-	template <typename Use>
-	static void feed(W & w, int t, int form, int id, const AD * from, Use && use)
+	// the library call that consumes the object, in the value category X
+	// (to keep the generated code small the queue is fed three value categories - T &, const T &, T && - and
+	// direct dispatch two - const T &, T &&; AnyData is constructed from all four)
+	template <typename X>
+	static void sink(W & w, int sk, int id, X && x)
 	{
-		LedgerSnap s0;
+		typedef typename std::remove_reference<X>::type XV;
+		const bool isConstRvalue = std::is_rvalue_reference<X &&>::value && std::is_const<XV>::value;
+		const bool isPlainLvalue = std::is_lvalue_reference<X>::value && ! std::is_const<XV>::value;
+		if(sk == SK_CONSTRUCT) w.adopt(new AD(std::forward<X>(x)), id);
+		else if(sk == SK_ENQUEUE) {
+			if constexpr (! isConstRvalue) { w.q->enqueue(w.curType, std::forward<X>(x)); w.enqueued(id); }
+		}
+		else {
+			if constexpr (! isConstRvalue && ! isPlainLvalue) w.q->dispatch(w.curType, std::forward<X>(x));
+		}
+	}
+	static void inspect(const T & src, SrcInfo & si) { si.fp = R::fp(src); si.state = R::srcState(src); si.shares = R::shares(src); }
+
+	// hands the source object over in the requested value category, then reports the state of the source
+	static void feed(W & w, int sk, int form, int id, const AD * from)
+	{
+		SrcInfo si; si.fp = 0; si.state = -1; si.shares = -1;
 		if constexpr (R::copyable) {
-			if(form == F_LVALUE) { T src(R::make(id)); s0.take(); use(src); w.afterFeed(form, s0, t, id, R::fp(src), R::srcState(src), R::shares(src)); return; }
-			if(form == F_CONST_LVALUE) { const T src(R::make(id)); s0.take(); use(src); w.afterFeed(form, s0, t, id, R::fp(src), R::srcState(src), R::shares(src)); return; }
-			if(form == F_CONST_RVALUE) { const T src(R::make(id)); s0.take(); use(std::move(src)); w.afterFeed(form, s0, t, id, R::fp(src), R::srcState(src), R::shares(src)); return; }
-			if(form == F_FROM_HELD) { const T & src = from->template get<T>(); s0.take(); use(src); w.afterFeed(form, s0, t, id, R::fp(src), R::srcState(src), R::shares(src)); return; }
+			if(form == F_LVALUE) {
+				T src(R::make(id));
+				const LedgerSnap s0 = w.beforeUse();
+				if(sk == SK_DISPATCH) sink(w, sk, id, static_cast<const T &>(src)); else sink(w, sk, id, src);
+				inspect(src, si); w.afterFeed(form, id, si, s0);
+				return;
+			}
+			if(form == F_CONST_LVALUE) { const T src(R::make(id)); const LedgerSnap s0 = w.beforeUse(); sink(w, sk, id, src); inspect(src, si); w.afterFeed(form, id, si, s0); return; }
+			if(form == F_CONST_RVALUE) {
+				const T src(R::make(id));
+				const LedgerSnap s0 = w.beforeUse();
+				if(sk == SK_CONSTRUCT) sink(w, sk, id, std::move(src)); else sink(w, sk, id, src); // the queue is fed const rvalues as const lvalues
+				inspect(src, si); w.afterFeed(form, id, si, s0);
+				return;
+			}
+			if(form == F_FROM_HELD) { const T & src = from->template get<T>(); const LedgerSnap s0 = w.beforeUse(); sink(w, sk, id, src); inspect(src, si); w.afterFeed(form, id, si, s0); return; }
 		}
 		(void)from;
-		if(form == F_RVALUE) { T src(R::make(id)); s0.take(); use(std::move(src)); w.afterFeed(form, s0, t, id, 0, R::srcState(src), -1); return; }
-		s0.take();
-		use(R::make(id));
-		w.afterFeed(F_TEMP, s0, t, id, 0, -1, -1);
+		if(form == F_RVALUE) { T src(R::make(id)); const LedgerSnap s0 = w.beforeUse(); sink(w, sk, id, std::move(src)); si.state = R::srcState(src); w.afterFeed(form, id, si, s0); return; }
+		const LedgerSnap s0 = w.beforeUse();
+		sink(w, sk, id, R::make(id));
+		w.afterFeed(F_TEMP, id, si, s0);
 	}
 
-	struct UseConstruct {
-		W & w; int id;
-		template <typename X> void operator() (X && x) const {
-			AD * ad;
-			if(w.rng.chance(1, 4)) {
-				// first an automatic object, then moved to its holder
-				AD onStack(std::forward<X>(x));
-				ad = new AD(std::move(onStack));
-				w.sawMove = true;
-				count("moves.anydata");
-			}
-			else ad = new AD(std::forward<X>(x));
-			w.adopt(ad, id);
-		}
-	};
-	struct UseEnqueue {
-		W & w; int id;
-		template <typename X> void operator() (X && x) const { w.q->enqueue(w.curType, std::forward<X>(x)); w.enqueued(id); }
-	};
-	struct UseDispatch {
-		W & w;
-		template <typename X> void operator() (X && x) const { w.q->dispatch(w.curType, std::forward<X>(x)); }
-	};
-
-	static void construct(W & w, int form, int id, const AD * from) { UseConstruct u = { w, id }; feed(w, w.curType, form, id, from, u); }
-	static void enqueue(W & w, int form, int id, const AD * from) { UseEnqueue u = { w, id }; feed(w, w.curType, form, id, from, u); }
-	static void dispatch(W & w, int form, int id, const AD * from) { UseDispatch u = { w }; feed(w, w.curType, form, id, from, u); }
-
-	// read back through every accessor, twice
-	static void verify(W & w, const AD & ad, int id, const char * where)
+	// every accessor, getAddress and get twice
+	static void read(const AD & ad, ReadBack & rb)
 	{
-		if(w.dead) return;
-		count("reads");
-		const void * const a1 = ad.getAddress();
+		rb.a[0] = ad.getAddress();
 		const T & r1 = ad.template get<T>();
 		const T & r2 = ad;          // operator T & () with T = const T
 		T & r3 = ad;                // operator T & ()
 		const T * const p4 = ad;    // operator T * () with T = const T
 		T * const p5 = ad;          // operator T * ()
-		const void * const a6 = ad.getAddress();
+		rb.a[1] = &r1; rb.a[2] = &r2; rb.a[3] = &r3; rb.a[4] = p4; rb.a[5] = p5;
+		rb.a[6] = ad.getAddress();
+		rb.align = (int)alignof(T);
+		rb.f1 = rb.f2 = -9; rb.shares = -1;
+		for(int k = 1; k < 7; ++k) if(rb.a[k] != rb.a[0]) return; // do not read through addresses that disagree
+		if(rb.a[0] == nullptr || ((uintptr_t)rb.a[0] % alignof(T)) != 0) return;
+		rb.f1 = R::fp(r1);
 		const T & r7 = ad.template get<T>();
-		const std::string cls = w.sizeClass(index());
-		if(a1 == nullptr) { w.fail(std::string(where) + ":address-null:" + cls, R::name() + " id=" + num(id) + ": getAddress() is null"); return; }
-		if((const void *)&r1 != a1 || (const void *)&r2 != a1 || (const void *)&r3 != a1 || (const void *)p4 != a1 || (const void *)p5 != a1 || a6 != a1 || (const void *)&r7 != a1) {
-			w.fail(std::string(where) + ":address-differs-between-accessors:" + cls, R::name() + " id=" + num(id) + ": get / conversion / getAddress do not agree on one address");
-			return;
-		}
-		if(((uintptr_t)a1 % alignof(T)) != 0) { w.fail(std::string(where) + ":address-misaligned:" + cls, R::name() + " id=" + num(id) + " is held at an address not aligned to " + num((long long)alignof(T))); return; }
-		const long long f1 = R::fp(r1);
-		if(f1 != id) { w.fail(std::string(where) + ":value:" + cls, R::name() + ": read back " + num(f1) + ", stored id=" + num(id)); return; }
-		const long long f2 = R::fp(*p4);
-		if(f2 != id) { w.fail(std::string(where) + ":value-second-read:" + cls, R::name() + ": second read gives " + num(f2) + ", stored id=" + num(id)); return; }
-		if((R::cls == TC_SPTR || R::cls == TC_SBOX) && w.ownersKnown(id)) {
-			count("use_count_checks");
-			const long sc = R::shares(r1);
-			const long want = w.entities(id);
-			if(sc != want) { w.fail(std::string(where) + ":use-count:" + cls, R::name() + " id=" + num(id) + ": use_count " + num(sc) + ", the model counts " + num(want) + " owners"); return; }
-		}
+		rb.f2 = R::fp(r7);
+		rb.shares = R::shares(r1);
 	}
 
 	struct TypedL { W * w; int ev; void operator() (const T & v) const { w->onTyped(ev, R::fp(v)); } };
 	static void appendTyped(W & w, int ev) { TypedL l; l.w = &w; l.ev = ev; w.q->appendListener(ev, l); }
 
-	static int & index() { static int i = -1; return i; }
-	static OpsRow<Cap> row(int idx) {
-		index() = idx;
+	static OpsRow<Cap> row() {
 		OpsRow<Cap> r;
-		r.name = R::name(); r.size = (int)sizeof(T); r.align = (int)alignof(T); r.cls = R::cls; r.copyable = R::copyable;
-		r.construct = &construct; r.enqueue = &enqueue; r.dispatch = &dispatch; r.verify = &verify; r.appendTyped = &appendTyped;
+		r.size = (int)sizeof(T); r.align = (int)alignof(T); r.cls = R::cls; r.copyable = R::copyable;
+		r.feed = &feed; r.read = &read; r.appendTyped = &appendTyped;
 		return r;
 	}
 };
@@ -953,9 +1005,9 @@ static std::vector<OpsRow<Cap> > makeTable(TL<Ts...>)
 {
 	std::vector<OpsRow<Cap> > v;
 	v.reserve(sizeof...(Ts));
-	int idx = 0;
-	const int dummy[] = { (v.push_back(TOps<Cap, Ts>::row(idx)), ++idx)... };
+	const int dummy[] = { (v.push_back(TOps<Cap, Ts>::row()), 0)... };
 	(void)dummy;
+	for(size_t i = 0; i < v.size(); ++i) v[i].name = typeName(v[i].cls, v[i].size);
 	return v;
 }
 
